@@ -56,7 +56,7 @@ def build(reg):
     FRAME = "self._cover == old(self._cover) and self._motif_sizes == old(self._motif_sizes)"
     m.fn("JointDegreeCover.create_jdd", params={"src": IMAP, "orig": LL}, ghost=["src", "orig"], assigns=["_jdd"], locals={"jds": LL},
          requires={"cover": "len(self._cover) >= 1 and forall(q, 0, len(self._cover), len(self._cover[q]) >= 1)",
-                   "vertex_ids_are_contiguous_from_0_or_1": "len(cover_vertex_ids(self._cover)) >= 1 and forall(q, 0, len(self._cover), forall(p, 0, len(self._cover[q]), 0 <= self._cover[q][p] - zero_index_of(self._cover) and self._cover[q][p] - zero_index_of(self._cover) < len(cover_vertex_ids(self._cover))))"},
+                   "vertex_ids_are_contiguous_from_0_or_1": "len(cover_vertex_ids(self._cover)) >= 1 and (list_min(cover_vertex_ids(self._cover)) == 0 or list_min(cover_vertex_ids(self._cover)) == 1) and forall(q, 0, len(self._cover), forall(p, 0, len(self._cover[q]), 0 <= self._cover[q][p] - zero_index_of(self._cover) and self._cover[q][p] - zero_index_of(self._cover) < len(cover_vertex_ids(self._cover))))"},
          ensures={"frame": "self._cover == old(self._cover) and self._motif_sizes == old(self._motif_sizes)", "count_matrix": "len(J1) == len(cover_vertex_ids(self._cover)) and forall(r, 0, len(J1), forall(col, 0, L, J1[r][col] == tot(self._cover, r + zero_index_of(self._cover), col + 1, len(self._cover)), trigger=J1[r][col]))", "removed_columns_are_the_all_zero_ones": "indxs == zero_columns(J1)", "kept_columns_in_their_original_order": "forall(p, 0, L - len(indxs), forall(p2, p + 1, L - len(indxs), src[p] < src[p2]))", "no_kept_column_is_all_zero": "forall(p, 0, L - len(indxs), 0 <= src[p] and src[p] < L and forall(t, 0, len(indxs), src[p] != indxs[t]), trigger=src[p])", "every_nonzero_column_is_kept": "forall(col, 0, L, implies(forall(t, 0, len(indxs), col != indxs[t]), 0 <= pos[col] and pos[col] < L - len(indxs) and src[pos[col]] == col), trigger=pos[col])", "rows_count_cliques_per_vertex_and_size": "len(COMP1) == len(cover_vertex_ids(self._cover)) and forall(r, 0, len(COMP1), is_tuple(COMP1[r]) and len(COMP1[r]) == L - len(indxs) and forall(p, 0, L - len(indxs), COMP1[r][p] == tot(self._cover, r + zero_index_of(self._cover), src[p] + 1, len(self._cover))), trigger=COMP1[r])", "distribution_is_the_frequency_of_the_rows": "forall_elem(key, JD, ((key in self._jdd) == (cntjd(COMP1, key, len(COMP1)) > 0)) and implies(key in self._jdd, self._jdd[key] == cntjd(COMP1, key, len(COMP1)) / len(COMP1)))"},
          raises={"ValueError": dict(when="False")},
          loops={0: dict(inv={"rows": "len(jds) == IT and forall(r, 0, IT, len(jds[r]) == largest_clique and forall(col, 0, largest_clique, jds[r][col] == 0), trigger=jds[r])", "frame": FRAME}),
